@@ -893,6 +893,55 @@ def fixed_compositions(run: Run):
         if ("verif.c18fix", 3) not in imports or len(found) != 1 or found[0][1].domain != "verif.c18fix" or len(found[0][1].input) != 1 or len(found[0][1].output) != 1:
             run.fail("impl", f"C18/fixed/inlined-model-with-operator-in-{where}", "the user-defined operator of an inlined model is not emitted verbatim "
                      "with its domain imported once at its version", {"scenario": where, "imports": sorted(imports), "found": [(pth, nd.domain, list(nd.input)) for pth, nd in found]})
+    # the operator at BODY DEPTH 0..3 of nested If branches of the program itself (not inlined): the domain's opset import has to climb
+    # through every level; the node arrives verbatim in the innermost body
+    for depth in (0, 1, 2, 3):
+        n += 1
+        try:
+            with warnings.catch_warnings():
+                warnings.simplefilter("ignore")
+                x = argument(Tensor(np.float32, (2,)))
+                c = argument(Tensor(np.bool_, ()))
+
+                def nest(d):
+                    if d == 0:
+                        return twice(x)
+                    return op17.if_(c, then_branch=lambda: [nest(d - 1)], else_branch=lambda: [op17.neg(x)])[0]
+
+                m = build({"x": x, "c": c}, {"y": nest(depth)})
+                onnx.checker.check_model(m, full_check=True)
+        except Exception as e:  # noqa: BLE001
+            run.fail("impl", f"C18/fixed/operator-at-body-depth-{depth}", f"a program with a user-defined operator {depth} If bodies deep does not "
+                     f"build: {type(e).__name__}: {str(e)[:200]}", {"depth": depth})
+            continue
+        imports = [(o.domain, o.version) for o in m.opset_import]
+        found = [(pth, nd) for pth, nd in nodes_at(m.graph) if nd.op_type == "Twice"]
+        if imports.count(("verif.c18fix", 3)) != 1 or len(found) != 1 or found[0][0].count("/") != depth or found[0][1].domain != "verif.c18fix":
+            run.fail("impl", f"C18/fixed/operator-at-body-depth-{depth}", "the user-defined operator is not emitted once, in the innermost body, with "
+                     "its domain imported once at its version", {"depth": depth, "imports": imports, "found": [(pth, nd.domain) for pth, nd in found]})
+    # declared attribute DEFAULTS: the three documented ways to construct the node (explicit Attributes(), attrs=None, attrs omitted) emit
+    # the same node - the defaults under their declared names
+    from harness.opaque_node import Scaled
+    n += 1
+    with warnings.catch_warnings():
+        warnings.simplefilter("ignore")
+        x = argument(Tensor(np.float32, (2,)))
+        ways = {"explicit": lambda: Scaled(Scaled.Attributes(), Scaled.Inputs(x)), "attrs=None": lambda: Scaled(None, Scaled.Inputs(x)),
+                "attrs-omitted": lambda: Scaled(inputs=Scaled.Inputs(X=x))}
+        seen = {}
+        for way, mk in ways.items():
+            try:
+                y = mk().outputs.Y
+                m = build({"x": x}, {"y": op17.identity(y)})
+                (nd,) = [q for q in m.graph.node if q.op_type == "Scaled"]
+                seen[way] = sorted((a.name, round(a.f, 6) if a.type == onnx.AttributeProto.FLOAT else a.s.decode()) for a in nd.attribute)
+            except Exception as e:  # noqa: BLE001
+                seen[way] = f"{type(e).__name__}: {str(e)[:120]}"
+        want = [("alpha", 1.5), ("mode", "fast")]
+        bad = {w: s for w, s in seen.items() if s != want}
+        if bad:
+            run.fail("impl", "C18/fixed/declared-attribute-defaults-not-emitted", "a user-defined operator constructed without explicit attributes "
+                     f"does not carry its declared defaults {want}: {bad}", {"seen": {k: str(v) for k, v in seen.items()}})
     # variadic input list modified after the call
     n += 1
     with warnings.catch_warnings():
